@@ -388,7 +388,7 @@ def run_case(ctx):
                 # truncated: a truncated operator can annihilate the state, and the library documents that one-site
                 # sweeps may get stuck; neither is part of the property
                 vproc = None
-                style = int(rng.integers(0, 3))
+                style = int(rng.choice(3, p=[0.3, 0.25, 0.45]))
                 m0 = m
                 # (a schedule that ramps the limit up from below the ranks is NOT used: once a sweep has truncated, the
                 # later sweeps need not recover the lost symmetry blocks - convergence is then no theorem, see 8.2)
@@ -405,7 +405,7 @@ def run_case(ctx):
                     lim = [int(min(max(cap, 1), r + int(rng.integers(0, 3)))) for cap, r in zip(caps, tr)]
                     if len(set(lim[1:-1])) > 1:
                         ctx.cls("variational:per-bond-limits-in-schedule")
-                    nz = int(rng.integers(9, 11))        # 12 or 13 sweeps: the last one runs leftwards or rightwards
+                    nz = 10 if rng.random() < 0.7 else 9        # 13 or 12 sweeps: the last one runs leftwards or rightwards
 
                     def cfg_of():
                         c = CompressConfig(CompressCriteria.fixed, max_bonddim=int(max(lim)))
